@@ -258,11 +258,33 @@ Definition beq_hev (a b : hev) : bool :=
 Definition hev_val (h : hev) : val :=
   match h with HDropped i x => VL [VB (tag "dropped"); VB i; VB x] | HUnsub i x => VL [VB (tag "unsub"); VB i; VB x] end.
 
+(* sendDelayedLWT ranges over a Go map (`for id, pk := range s.loop.willDelayed.GetAll()`): the order in
+   which the due entries of ONE tick are handled is arbitrary and differs from run to run.  It is
+   observable: the order of the will publications at a subscriber and, when two retained wills on the
+   same topic are due in the same tick, which of them stays retained.  Neither order is wrong (MQTT does
+   not order the wills of different sessions), so the replay lets the model handle the entries in the
+   order in which the real broker published them: the table is rearranged (a permutation: entries are
+   keyed by distinct connections, Session/LifeProofs16M.v [nodup_conns]) before the tick. *)
+Fixpoint dedupN (l : list N) : list N :=
+  match l with [] => [] | c :: r => c :: filter (fun x => negb (x =? c)) (dedupN r) end.
+
+Definition reorder_wills (order : list N) (s : state) : state :=
+  let ord := dedupN order in
+  set_wills s (flat_map (fun c => filter (fun e => d_conn (snd e) =? c) (st_wills s)) ord ++
+               filter (fun e => negb (memN (d_conn (snd e)) ord)) (st_wills s)).
+
+Definition pre_tick (b : obs) (s : state) : state :=
+  match b_op b with
+  | OTickWill _ => reorder_wills (map fst (wills_of (b_outs b))) s
+  | _ => s
+  end.
+
 (* replay: first step on which the model differs, as (step, what, model's view) *)
-Fixpoint replay (k : caps) (i : N) (s : state) (h : list obs) : option (N * N * val) :=
+Fixpoint replay (k : caps) (i : N) (s0 : state) (h : list obs) : option (N * N * val) :=
   match h with
   | [] => None
   | b :: r =>
+      let s := pre_tick b s0 in
       let (s', outs) := step k s (b_op b) in
       if negb (outs_match (b_outs b) outs) then Some (i, 10, VL [VL (map out_val outs); VL (map out_val (b_outs b))])
       else if (match b_op b with OConnect _ _ _ _ _ => true | _ => false end) &&
